@@ -7,6 +7,7 @@ package main
 import (
 	"encoding/json"
 	"fmt"
+	"net/url"
 	"sort"
 	"strings"
 	"sync"
@@ -59,6 +60,10 @@ func (c10Harness) Gen(r *verifsim.SplitMix, tier string, idx int) any {
 			} else if i > 0 && r.Chance(1, 8) {
 				// a different peer whose id differs from another's only in the case of a letter
 				c.ID = []string{"P1", "Host", "P2", "HOST"}[r.Intn(4)]
+			} else if i > 0 && r.Chance(1, 10) {
+				// an id that JSON cannot carry (bytes that are not UTF-8), or the replacement
+				// character such bytes decay to; written in its URL-escaped spelling
+				c.ID = []string{"%FF", "%EF%BF%BD", "p%FFx", "p%EF%BF%BDx", "%C3%28"}[r.Intn(5)]
 			}
 			na := 1 + r.Intn(6)
 			for a := 0; a < na; a++ {
@@ -176,6 +181,17 @@ type c10State struct {
 
 func (c10Harness) Run(spec any) (res verifsim.RunResult) {
 	sp := spec.(c10Spec)
+	// an id with a '%' is the URL spelling of the identity the peer connects with
+	wire := make([]string, len(sp.Clients))
+	sp.Clients = append([]c10Client(nil), sp.Clients...)
+	for i, c := range sp.Clients {
+		wire[i] = c.ID
+		if strings.Contains(c.ID, "%") {
+			if u, err := url.QueryUnescape(c.ID); err == nil {
+				sp.Clients[i].ID = u
+			}
+		}
+	}
 	res.Counters = map[string]int64{}
 	var viol []*verifsim.Violation
 	addV := func(class, sig, detail string) {
@@ -231,7 +247,7 @@ func (c10Harness) Run(spec any) (res verifsim.RunResult) {
 					return
 				}
 				st.sessID = si.ID
-				conn, status, _, _ := w.wsDial(fmt.Sprintf("10.0.5.%d", ci+1), wsURL(si.Code, cl.ID, cl.Role, ""))
+				conn, status, _, _ := w.wsDial(fmt.Sprintf("10.0.5.%d", ci+1), wsURL(si.Code, wire[ci], cl.Role, ""))
 				st.dialStatus = status
 				if conn == nil {
 					return
@@ -260,6 +276,11 @@ func (c10Harness) Run(spec any) (res verifsim.RunResult) {
 					_ = conn.WriteMessage(websocket.TextMessage, b)
 				}
 				sendEnv := func(kind, to, from, sess string) {
+					// the addressee is the name as JSON carries it (bytes that are not UTF-8
+					// cannot be written): that is whom the author named
+					if jb, err := json.Marshal(to); err == nil {
+						_ = json.Unmarshal(jb, &to)
+					}
 					mu.Lock()
 					tokenN++
 					tok := fmt.Sprintf("c%d-%d", ci, tokenN)
